@@ -204,6 +204,7 @@ def generate(unit, repo, vacuity=False):
             if spec.n4:
                 text, r = A.n4_unwrap_or_else(text); norms += r
             text, r = A.regex_rules(text, unit.global_rules + spec.rules); norms += r
+            text, hoisted, r = A.n14_hoist(text); norms += r
             try:
                 if spec.ret:
                     text = A.set_return_name(text, spec.ret)
@@ -236,7 +237,7 @@ def generate(unit, repo, vacuity=False):
                     ih = ' '.join(item.parent.header.split())
                     ih, _ = A.n1_strip(ih)
                     ih, r = A.regex_rules(ih, unit.global_rules + spec.impl_rules); norms += r
-                out = '%s {\n/*@FN:%s*/\n%s    %s\n}\n' % (ih, key, ('    ' + spec.attr + '\n') if spec.attr else '', text)
+                out = '%s%s {\n/*@FN:%s*/\n%s    %s\n}\n' % ((hoisted + '\n') if hoisted else '', ih, key, ('    ' + spec.attr + '\n') if spec.attr else '', text)
             else:
                 out = '/*@FN:%s*/\n%s%s\n' % (key, (spec.attr + '\n') if spec.attr else '', text)
             # obligations
